@@ -64,6 +64,7 @@ Definition eunit_code (u : eunit) : N :=
 Inductive beh :=
 | BRet (mark : bool) (z : Z)          (* optionally append the current status to the trail; return (z, nil) *)
 | BErr (mark : bool) (e : Z)          (* return (0, error e) *)
+| BErrZ (mark : bool) (z : Z) (e : Z) (* return (z, error e): an error comes with a status, which must be ignored *)
 | BPause (mark : bool)                (* return r.Pause(ctx, ..) *)
 | BCancel (mark : bool)               (* return r.Cancel(ctx, ..) *)
 | BFailFirst (k : nat) (e : Z) (b : beh)   (* the first k invocations of this function on a run fail with e *)
@@ -75,6 +76,7 @@ Fixpoint eval_beh (b : beh) (attempt : nat) (seed : Z) : bool * action :=
   match b with
   | BRet m z => (m, ARet z)
   | BErr m e => (m, AErr e)
+  | BErrZ m _ e => (m, AErr e)
   | BPause m => (m, APause)
   | BCancel m => (m, ACancel)
   | BFailFirst k e b' => if Nat.ltb attempt k then (false, AErr e) else eval_beh b' attempt seed
